@@ -86,10 +86,20 @@ impl AsRef<Expression> for Expression {
 impl fmt::Display for Expression {
     fn fmt(&self, f: &mut fmt::Formatter<'_>) -> fmt::Result {
         let mut syms = default_symbol_table();
-        let expr = self.convert(&mut syms);
+        // a parameter that has not been given a value yet has no Datalog form: it is printed
+        // the way it is written, `{name}`, through a placeholder that is removed afterwards
+        let printable = Expression {
+            ops: self
+                .ops
+                .iter()
+                .cloned()
+                .map(Op::with_parameter_placeholders)
+                .collect(),
+        };
+        let expr = printable.convert(&mut syms);
         // operations coming from a token can be malformed (too few or too many operands)
         match expr.print(&syms) {
-            Some(s) => write!(f, "{}", s),
+            Some(s) => write!(f, "{}", super::term::remove_parameter_placeholders(&s)),
             None => write!(f, "<invalid expression: {:?}>", expr.ops),
         }
     }
@@ -123,6 +133,19 @@ impl Op {
                 }
             }
             _ => {}
+        }
+    }
+
+    fn with_parameter_placeholders(self) -> Self {
+        match self {
+            Op::Value(term) => Op::Value(term.with_parameter_placeholders()),
+            Op::Closure(args, ops) => Op::Closure(
+                args,
+                ops.into_iter()
+                    .map(Op::with_parameter_placeholders)
+                    .collect(),
+            ),
+            _ => self,
         }
     }
 
